@@ -10,6 +10,8 @@ mod filter;
 mod lru;
 mod snode;
 mod ssim;
+mod nodes;
+mod admission;
 
 fn main() {
     clock::self_test();
@@ -29,6 +31,10 @@ fn main() {
         "C18" => filter::run(),
         "C20" => ssim::run_c20(),
         "C14" => ssim::run_c14(),
+        "C17" => ssim::run_c17(),
+        "C11" => nodes::run(&args),
+        "C12" => admission::run(),
+        "c17debug" => ssim::debug_c17(),
         "C09" => query::run("C09"),
         "C10" => query::run("C10"),
         "replay" => replay(&args),
